@@ -138,6 +138,14 @@ inductive PathType where
   | stdNoLastPred
   deriving DecidableEq, Repr
 
+/-- the buffer state before the first segment: a caller-provided buffer is used as it comes — unless the source has
+    the up-front `buffer[0] = '\0'` (`Generated.PathFmt.staticInitNul`, read off the source), which is one write of one
+    byte at offset 0 -/
+def initBuf (static : Option Nat) : Buf :=
+  match static with
+  | some n => ⟨true, n, [], if staticInitNul then [⟨0, 1, n⟩] else []⟩
+  | none => ⟨false, 0, [], []⟩
+
 /-- `lyd_path(node, pathtype, buffer, buflen)`; `static = some buflen` for a caller-provided buffer.
     `none` = NULL (bad address, or `buflen ≤ 1`). The returned buffer state's `data` is the C string the caller
     finds — except when `isStatic ∧ log = []`: then the function returned the caller's buffer without ever
@@ -148,8 +156,8 @@ def lydPath (f : Forest) (a : Addr) (pt : PathType) (static : Option Nat) : Opti
   | some [] => none
   | some ls =>
     match static with
-    | some n => if n > 1 then some (printLevels (pt == .std) ⟨true, n, [], []⟩ ls).1 else none
-    | none => some (printLevels (pt == .std) ⟨false, 0, [], []⟩ ls).1
+    | some n => if n > 1 then some (printLevels (pt == .std) (initBuf (some n)) ls).1 else none
+    | none => some (printLevels (pt == .std) (initBuf none) ls).1
 
 /-- `lyd_path(node, LYD_PATH_STD, NULL, 0)` as a byte string -/
 def pathOf (f : Forest) (a : Addr) : Option Bytes := (lydPath f a .std none).map (·.data)
